@@ -15,6 +15,10 @@ fn main() {
         std::process::exit(2);
     }
     engine::install_panic_hook();
+    if cfg!(feature = "background_rotation") {
+        // the hooks count the library's rotation threads (quiescence before every observation)
+        engine::hooks::ensure_installed();
+    }
     if args[1] == "child" {
         let code = props::child(&args[2], &args[3..]).unwrap_or_else(|| {
             eprintln!("unknown child {}", args[2]);
